@@ -218,10 +218,10 @@ HARNESSES = {"partition": h_partition, "jobs": h_jobs, "rng_source": h_rng_sourc
 
 def instances(tier):
     out = [("partition", {"which": w, "part": p}) for w in ("permanent", "laplace") for p in ("count", "split")]
-    out += [("jobs", {"rows": list(r), "cols": list(c)}) for r, c in (((1, 1), (1, 1)), ((2, 2), (3, 1)), ((2, 0, 1), (1, 1, 1)), ((3, 2), (4, 1)))]
+    out += [("jobs", {"rows": list(r), "cols": list(c)}) for r, c in (((1, 1), (1, 1)), ((2, 2), (3, 1)), ((2, 0, 1), (1, 1, 1)), ((3, 2), (4, 1)), ((2, 2, 1), (1, 3, 1)), ((4, 2, 1), (2, 3, 2)), ((2, 1, 2, 1), (1, 2, 2, 1)))]
     out += [("rng_source", {"sim": s, "shots": 2}) for s in ("pure", "mixed")]
     if tier == "thorough":
-        out += [("jobs", {"rows": list(r), "cols": list(c)}) for r, c in (((2, 2, 1), (1, 3, 1)), ((3, 3), (3, 3)), ((2, 1, 2), (1, 2, 2)))]
+        out += [("jobs", {"rows": list(r), "cols": list(c)}) for r, c in (((3, 3), (3, 3)), ((2, 1, 2), (1, 2, 2)), ((2, 1, 2, 1, 1), (1, 1, 2, 2, 1)))]
         out += [("rng_source", {"sim": s, "shots": 3}) for s in ("pure", "mixed")]
     return out
 
@@ -245,7 +245,7 @@ def run(rep, tier, seed, opts):
                   "outside": "OpenMP / numba prange scheduling itself (the jobs are interpreted sequentially; their accumulators are per job by construction of the source), dask, "
                              "float non-associativity of the final reduction, PCG64 / Mersenne Twister internals (contract stubs), different seeds give different samples, "
                              "Gaussian and passive samplers' generator provenance, idx_max beyond 2^31 (the counter narrows offsets to int)"}
-    o = {"timeout_s": 60 if tier == "quick" else 300, "instance_timeout_s": 900, "seed": seed, "validation_points": 2, "path_budget": 400}
+    o = {"timeout_s": 60 if tier == "quick" else 300, "instance_timeout_s": 900, "seed": seed, "validation_points": 2, "path_budget": 400, "som_blowup": True}
     for r in core.run_instances(__name__, [i for i in inst if i[0] != "rng_source"], o, jobs=opts.get("jobs")):
         rep.add_instance_result(__name__, r)
     o2 = dict(o, light_paths=True, path_budget=3000, validation_points=0)
